@@ -302,6 +302,16 @@ def c03_gen(r, tier):
         for parts in ([{"$p": "mol", "condition": keq}], [{"$p": "mol", "condition": ieq}], [{"$p": "mol"}, {"$p": "mol", "condition": keq}],
                       [{"$p": "mol"}, {"$p": "mol", "condition": ieq}]):
             yield {"path": {"parts": copy.deepcopy(parts)}, "doc": enc(d)}
+    # siblings that compare equal but differ in type (1 / True / 1.0, 0 / False / 0.0), under type-sensitive value conditions:
+    # every child is judged on its own
+    tint, tbool = G.leaf("ValueDataType", "equal_to", {"$type": "int"}), G.leaf("ValueDataType", "equal_to", {"$type": "bool"})
+    inst = G.leaf("Value", "is_instance", {"$type": "float"})
+    for d in ({"a": [1, True, 1.0, 2, "1"], "b": {"x": 0, "y": False, "z": 0.0}}, [True, 1, 1.0], [0.0, 0, False, 0], {"k": [[1], [True], [1.0]]}):
+        for vc in (tint, tbool, inst):
+            for parts in ([{"$p": "list", "value": vc}], [{"$p": "map", "value": vc}], [{"$p": "mol", "value": vc}],
+                          [{"$prim": "a"}, {"$p": "list", "value": vc}], [{"$prim": "b"}, {"$p": "map", "value": vc}],
+                          [{"$p": "mol"}, {"$p": "mol", "value": vc}], [{"$prim": "k"}, {"$p": "list"}, {"$p": "list", "value": vc}]):
+                yield {"path": {"parts": copy.deepcopy(parts)}, "doc": enc(d)}
     for _ in range(n):
         d = r.choice(docs) if r.random() < 0.3 else G.gen_doc(r, 3)
         p = G.path_into(r, d) if r.random() < 0.5 else G.gen_path(r, 3)
@@ -534,6 +544,22 @@ def c06_gen(r, tier):
     for rules in ([fan, fan], [one, tru], [fan, one, fan, tru]):
         for perm in ([0, 1] if len(rules) == 2 else [0, 1, 2, 3], [1, 0] if len(rules) == 2 else [3, 1, 2, 0]):
             yield {"schema": {"rules": copy.deepcopy(rules)}, "doc": enc({"a": [1, 2, 0], "b": "x"}), "perm": perm}
+    # rules whose paths differ only in the type of a numerically equal part (1 / 1.0 / True; an explicit map key 0 vs the bare
+    # 0 that is an index in a list): different nodes, judged independently, also with rules beneath them
+    gt = G.leaf("Value", "greater_than", 15)
+    P = lambda *parts: {"parts": [q if isinstance(q, dict) else {"$prim": q} for q in parts]}
+    mk0 = {"$p": "map", "key": 0}
+    for doc, paths in (
+            ({"a": [10, 20]}, [P("a", 1.0), P("a", 1)]),
+            ({"a": [10, 20]}, [P("a", True), P("a", 1), P("a", 1.0)]),
+            ({"a": [[5, 30], [40]]}, [P("a", mk0), P("a", 0), P("a", 0, 1)]),
+            ({"a": {1: 30, "x": 5}}, [P("a", 1.0), P("a", 1), P("a", "y"), P("a", "x")]),
+            ([[10, 20], {1.0: 99}], [P(0, 1.0), P(0, 1), P(1, 1), P(1, 1.0)]),
+            ({"a": [[1, 99], [2]]}, [P("a", 0.0), P("a", 0, 1), P("a", 0)])):
+        rules = [{"path": pp, "cond": gt} for pp in paths]
+        idx = list(range(len(rules)))
+        for perm in (idx, idx[::-1], idx[1:] + idx[:1]):
+            yield {"schema": {"rules": copy.deepcopy(rules)}, "doc": enc(doc), "perm": perm}
     for _ in range(n):
         d = G.gen_doc(r, 3)
         s = G.gen_schema(r, d)
